@@ -19,6 +19,17 @@ REPO = "/repo"
 
 # property -> list of (name, file relative to /repo, old, new)
 MUTANTS = {
+    "C17": [
+        ("xor-becomes-or", "src/phreeqcpp/PBasic.cpp", "\t\t\tn.UU.val = ((long) n.UU.val) ^ ((long) n2.UU.val);", "\t\t\tn.UU.val = ((long) n.UU.val) | ((long) n2.UU.val);"),
+        ("power-right-assoc-lost", "src/phreeqcpp/PBasic.cpp", "\t\tLINK->t = LINK->t->next;\n\t\tn2 = upexpr(LINK);\n\t\tif (n2.stringval)\n\t\t\ttmerr(\": not a number after ^\");", "\t\tLINK->t = LINK->t->next;\n\t\tn2 = factor(LINK);\n\t\tif (n2.stringval)\n\t\t\ttmerr(\": not a number after ^\");"),
+        ("for-loop-bound-exclusive", "src/phreeqcpp/PBasic.cpp", "\t\t || *WITH->UU.U0.vp->UU.U0.val <= WITH->UU.U0.max)", "\t\t || *WITH->UU.U0.vp->UU.U0.val < WITH->UU.U0.max)"),
+        ("le-comparison-mask", "src/phreeqcpp/PBasic.cpp", "\t\t\tf = (bool) ((n.UU.val == n2.UU.val && (unsigned long) k < 32 &&\n\t\t\t\t\t\t\t((1L << ((long) k)) & ((1L << ((long) tokeq)) |\n\t\t\t\t\t\t\t\t\t\t\t\t   (1L << ((long) tokge)) |\n\t\t\t\t\t\t\t\t\t\t\t\t   (1L << ((long) tokle)))) !=", "\t\t\tf = (bool) ((n.UU.val == n2.UU.val && (unsigned long) k < 32 &&\n\t\t\t\t\t\t\t((1L << ((long) k)) & ((1L << ((long) tokeq)) |\n\t\t\t\t\t\t\t\t\t\t\t\t   (1L << ((long) tokge)) |\n\t\t\t\t\t\t\t\t\t\t\t\t   (1L << ((long) toklt)))) !="),
+        ("instr-zero-based", "src/phreeqcpp/PBasic.cpp", "\t\t\t\tn.UU.val = ((LDBLE)(cptr - string1)) + 1;", "\t\t\t\tn.UU.val = ((LDBLE)(cptr - string1));"),
+        ("on-goto-off-by-one", "src/phreeqcpp/PBasic.cpp", "\twhile (i > 1 && !iseos(LINK))\n\t{\n\t\trequire(toknum, LINK);", "\twhile (i > 0 && !iseos(LINK))\n\t{\n\t\trequire(toknum, LINK);"),
+        ("array-row-stride", "src/phreeqcpp/PBasic.cpp", "\t\tk = k * v->dims[i - 1] + j;", "\t\tk = k * (v->dims[i - 1] - (i > 2 ? 1 : 0)) + j;"),
+        ("restore-ignores-line", "src/phreeqcpp/PBasic.cpp", "\t\tdataline = mustfindline(intexpr(LINK));\n\t\tif (phreeqci_gui)", "\t\tmustfindline(intexpr(LINK)); dataline = NULL;\n\t\tif (phreeqci_gui)"),
+        ("type-mismatch-unchecked", "src/phreeqcpp/PBasic.cpp", "\t\tif (n.stringval != n2.stringval)\n\t\t\ttmerr(\": found char, but need a number for + or - \");", "\t\tif (n.stringval && !n2.stringval)\n\t\t\ttmerr(\": found char, but need a number for + or - \");"),
+    ],
     "C18": [
         ("precipitate-constraint-sign", "src/phreeqcpp/inverse.cpp", "\t\t\tdelta[(size_t)col_phases + (size_t)i] = -1.0;", "\t\t\tdelta[(size_t)col_phases + (size_t)i] = 1.0;"),
         ("uncertainty-bound-doubled", "src/phreeqcpp/inverse.cpp", "\t\t\tmy_array[count_rows * max_column_count + (size_t)i] = -coef * f;\n\t\t\tsnprintf(token, sizeof(token), \"%s %s\", inv_ptr->elts[j].master->elt->name, \"eps+\");", "\t\t\tmy_array[count_rows * max_column_count + (size_t)i] = -2.0 * coef * f;\n\t\t\tsnprintf(token, sizeof(token), \"%s %s\", inv_ptr->elts[j].master->elt->name, \"eps+\");"),
